@@ -168,10 +168,12 @@ func (c *Conn) AsyncRead() {
 	if g.isOneshot {
 		g.IOExecute(func(pbuf *[]byte) {
 			for i := 0; i < g.MaxConnReadTimesPerEventLoop; i++ {
+				bufLen := len(*pbuf)
 				rc, n, err := c.ReadAndGetConn(pbuf)
 				if n > 0 {
 					*pbuf = (*pbuf)[:n]
 					g.onDataPtr(rc, pbuf)
+					*pbuf = (*pbuf)[:bufLen]
 				}
 				if errors.Is(err, syscall.EINTR) {
 					continue
@@ -183,7 +185,7 @@ func (c *Conn) AsyncRead() {
 					_ = c.closeWithError(err)
 					return
 				}
-				if n < len(*pbuf) {
+				if n < bufLen {
 					break
 				}
 			}
@@ -214,10 +216,12 @@ func (c *Conn) AsyncRead() {
 		for {
 			// try to read all the data available.
 			for i := 0; i < g.MaxConnReadTimesPerEventLoop; i++ {
+				bufLen := len(*pBuf)
 				rc, n, err := c.ReadAndGetConn(pBuf)
 				if n > 0 {
 					*pBuf = (*pBuf)[:n]
 					g.onDataPtr(rc, pBuf)
+					*pBuf = (*pBuf)[:bufLen]
 				}
 				if errors.Is(err, syscall.EINTR) {
 					continue
@@ -229,7 +233,7 @@ func (c *Conn) AsyncRead() {
 					_ = c.closeWithError(err)
 					return
 				}
-				if n < len(*pBuf) {
+				if n < bufLen {
 					break
 				}
 			}
